@@ -25,28 +25,39 @@ HasPanic(r) == \E j \in 1..Len(r) : r[j] = -2
 ShortViol(r) ==
     LET s == r[1]  d1 == r[2]  d2 == r[3]
         valid == ValidStatus(s)
-        oks == (IF r[4] = B2I(valid) /\ r[5] = B2I(valid) /\ r[6] = B2I(valid) /\ r[7] = B2I(valid)
+        \* r[4..8]: from_bytes of RawShortMessage, StructuredShortMessage, the byte-keeping third-party
+        \* factory, TryFrom<(u8, U7, U7)> for RawShortMessage, the structure-keeping third-party factory
+        oks == (IF \A j \in 4..8 : r[j] = B2I(valid)
                 THEN {} ELSE {<<"C01", "from_bytes-accepts-iff-status-valid">>})
-        panicked == valid /\ (\E j \in 4..7 : r[j] = -2)
+        panicked == valid /\ (\E j \in 4..8 : r[j] = -2)
     IN IF panicked
        THEN {<<"C01", "from_bytes-panics">>, <<"C02", "structured-not-constructible">>,
              <<"C03", "structured-not-constructible">>, <<"C18", "panic">>}
-       ELSE IF ~valid \/ Len(r) <= 9
-       THEN oks \cup (IF Len(r) = 8 /\ r[8] = 0 THEN {} ELSE
-                      {<<"C18", IF Len(r) = 9 THEN "panic-constructing-structured" ELSE "alloc">>})
+       ELSE IF ~valid \/ Len(r) <= 10
+       THEN oks \cup (IF Len(r) = 9 /\ r[9] = 0 THEN {} ELSE
+                      {<<"C18", IF Len(r) = 10 THEN "panic-constructing-structured" ELSE "alloc">>})
                 \* converting a valid message to StructuredShortMessage panicked: the byte round trip (C01), the
                 \* accessors built on to_structured (C02) and representation independence (C03) all fail
-                \cup (IF valid /\ Len(r) <= 9 /\ oks = {}
+                \cup (IF valid /\ Len(r) <= 10 /\ oks = {}
                       THEN {<<"C01", "structured-not-constructible">>, <<"C02", "structured-not-constructible">>,
                             <<"C03", "structured-not-constructible">>} ELSE {})
        ELSE
-       LET vecR == Sub(r, 9, 26)   vecS == Sub(r, 35, 26)   flags == Sub(r, 61, 16)
-           back == Sub(r, 77, 3)   rt2 == Sub(r, 80, 3)     into == Sub(r, 83, 3)
+       LET vecR == Sub(r, 10, 26)   vecS == Sub(r, 36, 26)   flags == Sub(r, 62, 16)
+           back == Sub(r, 78, 3)   rt2 == Sub(r, 81, 3)     into == Sub(r, 84, 3)
+           tryf == Sub(r, 87, 3)   flags2 == Sub(r, 90, 8)
            c == Canon(s, d1, d2)
            expR == Obs(s, d1, d2)
            expS == Obs(c[1], c[2], c[3])
            bytesIdx == 15..20
            accName(j) == "acc" \o ToString(j)
+           \* flags2: 1 = `&&M` receivers, 2 / 3 = method syntax on the concrete raw / structured type,
+           \* 4 = re-entrant third-party adapter, 5 = structure-keeping third-party implementor,
+           \* 6 = its factory and conversions, 7 = the same answers after unrelated calls,
+           \* 8 = tuple conversion and Clone agree with from_bytes
+           F2Props(j) == CASE j \in {1, 2, 3, 7} -> {"C02", "C03"}
+                           [] j \in {4, 5} -> {"C03"}
+                           [] j = 6 -> {"C01", "C03"}
+                           [] OTHER -> {"C01"}
        IN oks
           \cup (IF vecR = expR THEN {}
                 ELSE LET j == FirstDiff(vecR, expR) IN
@@ -57,14 +68,16 @@ ShortViol(r) ==
           \cup (IF back = c THEN {} ELSE {<<"C01", "structured-to-raw-bytes-not-canonical">>})
           \cup (IF rt2 = c THEN {} ELSE {<<"C01", "round-trip-not-idempotent">>})
           \cup (IF into = <<s, d1, d2>> THEN {} ELSE {<<"C01", "raw-into-tuple">>})
+          \cup (IF tryf = <<s, d1, d2>> THEN {} ELSE {<<"C01", "raw-try_from-tuple">>})
           \cup {<<"C03", "flag" \o ToString(j)>> : j \in {x \in 1..16 : flags[x] # 1}}
+          \cup UNION {{<<p, "way" \o ToString(j)>> : p \in F2Props(j)} : j \in {x \in 1..8 : flags2[x] # 1}}
           \* C03: the ONLY permitted difference in the byte getters is information-free parts set to zero
           \cup (IF Sub(vecS, 15, 3) = Mask(s, d1, d2) /\ Sub(vecS, 18, 3) = Mask(s, d1, d2) THEN {}
                 ELSE {<<"C03", "structured-bytes-not-masked-raw-bytes">>})
           \* C03, stated directly: structured answers = raw answers except the byte getters
           \cup (IF \A j \in (1..14) \cup (21..26) : vecS[j] = vecR[j] THEN {}
                 ELSE {<<"C03", "structured-vs-raw-" \o accName(CHOOSE j \in (1..14) \cup (21..26) : vecS[j] # vecR[j])>>})
-          \cup (IF r[8] = 0 THEN {} ELSE {<<"C18", "alloc">>})
+          \cup (IF r[9] = 0 THEN {} ELSE {<<"C18", "alloc">>})
           \cup (IF HasPanic(r) THEN {<<"C18", "panic">>} ELSE {})
           \cup (IF \A j \in {5, 6, 7, 8, 9, 10} : vecR[j] <= 127 /\ vecS[j] <= 127 THEN {} ELSE {<<"C04", "range">>})
           \cup (IF vecR[4] <= 15 /\ vecS[4] <= 15 THEN {} ELSE {<<"C04", "channel-range">>})
